@@ -28,7 +28,7 @@ func init() {
 		ID: "C14", HangIsViolation: true, Gen: genC14, GenRace: genC14Race, Run: runC14, Quick: 2000, Thorough: 250000, RaceQuick: 500, RaceThorough: 12000,
 		Real: []string{"pkg/exporter: InitExportingProcess, SendSet, template refresh goroutine (UDP), connection-check goroutine (TCP), CloseConnToCollector / closeConnToCollector", "pkg/entities"},
 		Stub: []string{"OS sockets (simnet; after the peer's FIN a write succeeds and vanishes, as with a real kernel)", "wall clock (synctest bubble)", "goroutine scheduling (sim layer: seeded baton scheduler with preemptions; race layer: Go scheduler under the race detector, application confined to one goroutine)"},
-		Rule: "application sends placed on / 1 ns around refresh ticks, first template before or after the first tick, peer close at a seeded time, write error on a refresh datagram, CloseConnToCollector from 1-3 other goroutines concurrently and repeatedly, sends after Close; a tenth of the plans run a SendJSONRecord exporter (templates, data, time across ticks / probes, close: the wire is one JSON document per record and nothing else); non-trivial = at least one refresh burst or connection check overlapped with application activity, or a concurrent Close; distinct = distinct event-log hash (sim) / plan seed (race)",
+		Rule: "application sends placed on / 1 ns around refresh ticks, first template before or after the first tick, peer close at a seeded time, write error on a refresh datagram, CloseConnToCollector from 1-3 other goroutines concurrently and repeatedly, sends after Close; a tenth of the plans run a SendJSONRecord exporter (templates, data, time across ticks / probes, close: the wire is one JSON document per record and nothing else); non-trivial = at least one refresh burst or connection check overlapped with application activity, or a concurrent Close; distinct = distinct event-log hash (sim) / plan seed (race); every wire message also carries the sequence number that belongs at its place in the stream (the C08 oracle on this traffic)",
 	})
 }
 
@@ -398,6 +398,9 @@ func runC14(pl *plan.Plan, out *plan.Outcome) {
 	s := sess
 	// (1) every datagram / write is exactly one well-formed message of either origin
 	s.checkWire("C14")
+	// (1b) ... and carries the sequence number that belongs at its place in the stream: neither the
+	// refresh nor a Close from another goroutine makes a message forget what was sent before it
+	s.seqCheck()
 	pw := s.parseWire()
 	// (2) nothing is written after the first Close returned
 	for i, w := range pw {
